@@ -98,17 +98,20 @@ theorem inv_step (s : State Scheme Data) (hI : Inv W ps sc s) (op : Op) : Inv W 
     simp only [step]
     split
     · rename_i a b ha hb
-      refine ⟨hI.datadir, hI.propsets, hI.schemas, ?_, ?_⟩
-      · intro l' hl'
-        rcases List.mem_or_eq_of_mem_set hl' with h | h
-        · exact hI.libs l' h
-        · subst h
-          obtain ⟨a1, a2⟩ := hI.libs a (List.mem_of_getElem? ha)
-          obtain ⟨_, b2⟩ := hI.libs b (List.mem_of_getElem? hb)
-          exact ⟨a1, by simp [denote, a2, b2]⟩
-      · intro e he
-        obtain ⟨h1, h2⟩ := hI.ests e he
-        exact ⟨by simpa using h1, h2⟩
+      cases hm : W.mergeF a.data b.data ow with
+      | error c => exact hI
+      | ok d =>
+        refine ⟨hI.datadir, hI.propsets, hI.schemas, ?_, ?_⟩
+        · intro l' hl'
+          rcases List.mem_or_eq_of_mem_set hl' with h | h
+          · exact hI.libs l' h
+          · subst h
+            obtain ⟨a1, a2⟩ := hI.libs a (List.mem_of_getElem? ha)
+            obtain ⟨_, b2⟩ := hI.libs b (List.mem_of_getElem? hb)
+            exact ⟨a1, by simp [denote, a2, b2, hm]⟩
+        · intro e he
+          obtain ⟨h1, h2⟩ := hI.ests e he
+          exact ⟨by simpa using h1, h2⟩
     · exact hI
 
 theorem run_cons (s : State Scheme Data) (op : Op) (rest : List Op) :
@@ -202,7 +205,7 @@ theorem output_of_declared (s : State Scheme Data) (hI : Inv W ps sc s) (op : Op
         subst hd
         simp only [step, ha, hb, outOf, (hI.libs a (List.mem_of_getElem? ha)).2,
           (hI.libs b (List.mem_of_getElem? hb)).2]
-        rfl
+        cases W.mergeF a.data b.data ow <;> rfl
 
 /-! ### frame: what each operation leaves alone -/
 
@@ -226,7 +229,11 @@ theorem libs_length_le (s : State Scheme Data) (op : Op) : s.libs.length ≤ (st
     split
     · simp
     · split <;> simp
-  | merge dst src ow => simp only [step]; split <;> simp
+  | merge dst src ow =>
+    simp only [step]
+    split
+    · split <;> simp
+    · simp
 
 /-- library `i` after an operation: scheme and origin never change; data and provenance change only by a merge
 *into* `i`; the remembered name changes only by a decomposition with `i`. -/
@@ -272,15 +279,18 @@ theorem frame_lib (s : State Scheme Data) (op : Op) (i : Nat) (l : Lib Scheme Da
     simp only [step]
     split
     · rename_i a b ha hb
-      by_cases hdi : dst = i
-      · subst hdi
-        rw [hl] at ha
-        cases ha
-        refine ⟨{ l with data := (W.mergeF l.data b.data ow).1, prov := .merged l.prov b.prov ow },
-          by simp [List.getElem?_set_self hi], rfl, rfl, ?_, fun _ => rfl⟩
-        intro hne
-        exact absurd rfl (hne src ow)
-      · exact ⟨l, by simp [List.getElem?_set_ne hdi, hl], rfl, rfl, fun _ => ⟨rfl, rfl⟩, fun _ => rfl⟩
+      split
+      · exact ⟨l, hl, rfl, rfl, fun _ => ⟨rfl, rfl⟩, fun _ => rfl⟩
+      · rename_i d hm
+        by_cases hdi : dst = i
+        · subst hdi
+          rw [hl] at ha
+          cases ha
+          refine ⟨{ l with data := d, prov := .merged l.prov b.prov ow },
+            by simp [List.getElem?_set_self hi], rfl, rfl, ?_, fun _ => rfl⟩
+          intro hne
+          exact absurd rfl (hne src ow)
+        · exact ⟨l, by simp [List.getElem?_set_ne hdi, hl], rfl, rfl, fun _ => ⟨rfl, rfl⟩, fun _ => rfl⟩
     · exact ⟨l, hl, rfl, rfl, fun _ => ⟨rfl, rfl⟩, fun _ => rfl⟩
 
 /-- an estimate, once made, is never changed by any operation -/
@@ -306,7 +316,11 @@ theorem frame_est (s : State Scheme Data) (op : Op) (e : Nat) (est : Est Data) (
     split
     · exact he
     · split <;> exact he
-  | merge dst src ow => simp only [step]; split <;> simpa using he
+  | merge dst src ow =>
+    simp only [step]
+    split
+    · split <;> simpa using he
+    · exact he
 
 /-- the registries: the property-set table and the schema repository never change; the data-directory cache only
 goes from empty to the directory the environment designates, and only by a load by builtin name -/
@@ -339,7 +353,18 @@ theorem frame_registries (s : State Scheme Data) (op : Op) :
     split
     · exact ⟨rfl, rfl, Or.inl rfl⟩
     · split <;> exact ⟨rfl, rfl, Or.inl rfl⟩
-  | merge dst src ow => simp only [step]; split <;> exact ⟨rfl, rfl, Or.inl rfl⟩
+  | merge dst src ow =>
+    simp only [step]
+    split
+    · split <;> exact ⟨rfl, rfl, Or.inl rfl⟩
+    · exact ⟨rfl, rfl, Or.inl rfl⟩
+
+/-- a merge that is refused leaves the whole state — every library, its provenance included, every estimate, the
+registries — as it was -/
+theorem step_merge_refused (s : State Scheme Data) (dst src : Nat) (ow : Bool) (a b : Lib Scheme Data)
+    (ha : s.libs[dst]? = some a) (hb : s.libs[src]? = some b) (c : Code) (hm : W.mergeF a.data b.data ow = .error c) :
+    step W s (.merge dst src ow) = (s, .merged a.data (some c)) := by
+  simp only [step, ha, hb, hm]
 
 /-! ### histories -/
 
